@@ -26,7 +26,7 @@ parameter record `P` (fill limits, `tau`).
 Hypotheses: `A` well formed, square, no row storing a column twice (`noRepeatb`: the copy loop overwrites, `A.get` adds);
 non-zero stored pivots where a division by them is undone (the code has no pivot check).
 -/
-namespace Amgcl.C06d
+namespace Amgcl.C06e
 open Amgcl Amgcl.Relax Finset
 
 section ilut
@@ -221,4 +221,4 @@ example : ilutFactor (exP 1 0) ⟨3, #[[(0, 4), (1, 1), (2, -1)], [(0, 1), (1, 4
 
 end examples
 
-end Amgcl.C06d
+end Amgcl.C06e
